@@ -153,7 +153,7 @@ PROPS["C06"] = {
 PROPS["C16"] = {
     "level": "model_checking",
     "technique": "explicit-state BFS to a fixpoint over 1005h/1006h writes, SYNC and near-miss frames, NMT commands, ticks and error reads, against a reference model {identifier, producing, period, phase}",
-    "text": "Five initial configurations of (1005h, 1006h, timer frequency). 21 events: SDO write 1005h in {80h, 81h, 40000080h, 40000081h}; SDO write 1006h in {0, 1, 2, 3 ticks, half a tick}; frames on 80h, 81h, 7Fh; NMT start/stop/pre-op/reset communication; tick; CONodeGetErr (the application reading - or not reading - the sticky node error); RPDO frames for a synchronous RPDO and a local write of its object. After every step: the produced SYNC frames (identifier, DLC 0, exactly every period counted from the start/re-timing write or reset, only in PRE-OP/OP), the SDO verdicts (0609 0030h with the old value kept for a CAN-ID change while producing and for a period below the timer resolution; read-back otherwise), recognition of received SYNC (type-1 TPDO sent exactly once in OPERATIONAL, buffered synchronous RPDO applied exactly once, near-miss identifiers handed to the application). The reachable state set is closed (fixpoint) for all five configurations.",
+    "text": "Five initial configurations of (1005h, 1006h, timer frequency). 21 events: SDO write 1005h in {80h, 81h, 40000080h, 40000081h}; SDO write 1006h in {0, 1, 2, 3 ticks, half a tick}; frames on 80h, 81h, 7Fh; NMT start/stop/pre-op/reset communication; tick; CONodeGetErr (the application reading - or not reading - the sticky node error); RPDO frames for a synchronous RPDO and a local write of its object; reaction probes are a type-1 TPDO (#0), a type-2 TPDO (#3) and the synchronous RPDO - each recognised SYNC must advance each of them exactly once. After every step: the produced SYNC frames (identifier, DLC 0, exactly every period counted from the start/re-timing write or reset, only in PRE-OP/OP), the SDO verdicts (0609 0030h with the old value kept for a CAN-ID change while producing and for a period below the timer resolution; read-back otherwise), recognition of received SYNC (type-1 TPDO sent exactly once in OPERATIONAL, buffered synchronous RPDO applied exactly once, near-miss identifiers handed to the application). The reachable state set is closed (fixpoint) for all five configurations.",
     "note": "periods are whole ticks up to 3 ticks; enabling the producer while 1006h holds no usable period and writing 0 to 1006h while producing may be refused or accepted (the statement leaves it open); a frame buffered before an NMT change may be applied at the next SYNC in OPERATIONAL or dropped; periods above 6.5 s are covered by a dedicated sweep (9 periods from 6 s to 100 s at 100 Hz and 1 kHz: emissions exactly at period and 2 x period), not by the BFS",
     "jobs": {
         "quick": [J("c16", c, depth=60, deadline=120) for c in range(5)] + [J("c16long")],
@@ -175,11 +175,13 @@ PROPS["C12"] = {
 PROPS["C13"] = {
     "level": "model_checking",
     "technique": "explicit-state BFS over RPDO frames, SYNC, local writes and NMT changes for every RPDO table (3 channels x {absent, asynchronous, synchronous, invalid}) with the complete object image compared after every step + exhaustive sweep over all mappings incl. dummies",
-    "text": "(a) all 4^3 RPDO tables, started in PRE-OP and in OPERATIONAL (128 configurations); mappings with a dummy entry, two 8-bit objects, a 32-bit object. 21 events: a frame on each configured identifier with payload pattern A/B and DLC 8 / mapped length; a frame on each neighbouring identifier; SYNC; a local write to the mapped objects; NMT start/pre-op/stop; tick. After every step all application objects must equal the reference image: asynchronous RPDOs take effect immediately and only in OPERATIONAL, synchronous ones exactly once at the next SYNC after a reception, a SYNC without reception changes nothing, other identifiers and states change nothing, nothing is transmitted. Most tables close (fixpoint). (b) all 5332 ordered mappings of objects of width 1/2/3/4 and dummy entries 0002h..0007h (width 1/2/4) totalling <= 8 bytes x two payloads: every object holds exactly its little-endian field, dummies consume their width, no other object changes.",
+    "text": "(a) all 4^3 RPDO tables, started in PRE-OP and in OPERATIONAL (128 configurations; ten of the OPERATIONAL tables (thorough: all 64) once more with the three channels being RPDO numbers 1..3 instead of 0..2); mappings with a dummy entry, two 8-bit objects, a 32-bit object. 21 events: a frame on each configured identifier with payload pattern A/B and DLC 8 / mapped length; a frame on each neighbouring identifier; SYNC; a local write to the mapped objects; NMT start/pre-op/stop; tick. After every step all application objects must equal the reference image: asynchronous RPDOs take effect immediately and only in OPERATIONAL, synchronous ones exactly once at the next SYNC after a reception, a SYNC without reception changes nothing, other identifiers and states change nothing, nothing is transmitted. Most tables close (fixpoint). (b) all 5332 ordered mappings of objects of width 1/2/3/4 and dummy entries 0002h..0007h (width 1/2/4) totalling <= 8 bytes x two payloads: every object holds exactly its little-endian field, dummies consume their width, no other object changes.",
     "note": "a frame buffered by a synchronous RPDO before an NMT change may be applied at the next SYNC in OPERATIONAL or dropped; DLC shorter than the mapped length is not in the alphabet (C01 covers it for safety)",
     "jobs": {
-        "quick": [J("c13", c, depth=30, deadline=100, allow_dead=True) for c in range(128)] + [J("c13map")],
-        "thorough": [J("c13", c, depth=60, deadline=600, allow_dead=True) for c in range(128)] + [J("c13map")],
+        "quick": [J("c13", c, depth=30, deadline=100, allow_dead=True) for c in range(128)] + [J("c13map")] +
+                 [J("c13", c, depth=30, deadline=100, allow_dead=True, opts={"base": 1}) for c in (70, 73, 74, 86, 89, 90, 101, 102, 105, 106)],
+        "thorough": [J("c13", c, depth=60, deadline=600, allow_dead=True) for c in range(128)] + [J("c13map")] +
+                    [J("c13", c, depth=60, deadline=600, allow_dead=True, opts={"base": 1}) for c in range(64, 128)],
     },
 }
 
